@@ -360,6 +360,14 @@ func runEngine(b block) {
 					c.cur = k
 				}
 				fmt.Fprintf(out, "%s %d result done\n", b.id, step)
+			case "snapall":
+				fmt.Fprintf(out, "%s %d result done\n", b.id, step)
+				saved := c.id
+				for j, sj := range c.solutions {
+					c.id = fmt.Sprintf("%s S%d", saved, j)
+					c.snapshot(step, sj)
+				}
+				c.id = saved
 			}
 			c.snapshot(step, c.solutions[c.cur])
 			step++
